@@ -76,6 +76,11 @@ def scenarios(ctx):
     # the snapshot has to label the snapshot with what it contains), then a crash and a restart from it
     for j in range(2 if quick else 6):
         add(n=1 if j % 2 else 3, ops=118 + 7 * j, snapshotat=112 + 5 * j, crashnode=-1 if j % 2 == 0 else 1, crashcycle=1, crashpoint="never (the node dies idle, after the client phase)", opsafter=3)
+    # a follower that was away is handed the snapshot AND the appends behind it before its ready loop looks again: one
+    # Ready carries a snapshot and committed entries (the follower's earlier heartbeat response reaches the leader
+    # late, its loop is held at "advanced" while both messages are stepped in) - both have to be acted on
+    for j in range(2 if quick else 8):
+        add(n=3 if j % 2 == 0 else 5, conf="snapapp", ops=0, opsafter=2)
     # serializing the state machine takes a while (a large index) and the client keeps writing: the snapshot is
     # labelled with the index whose state it holds (SnapshotContents), also the one a restart then starts from
     for j in range(3 if quick else 10):
@@ -227,6 +232,15 @@ def run_family(ctx):
     ctx.log("%d scenarios on real replicas (%d crashes forced, %d events): %d failed checks" % (len(scs), ncrash, nev, len(viols)))
     ctx.cov["traces_validated_against_impl"] = len(scs)
     ctx.cov["crashes_forced"] = ncrash
+    both = 0
+    for x in all_lines:
+        if '"ev":"ready"' in x and '"snapidx":0' not in x:
+            e = json.loads(x)
+            if e.get("snapidx", 0) > 0 and e.get("committed"):
+                both += 1
+    ctx.cov["readys_with_snapshot_and_committed_entries"] = both
+    if both == 0:
+        ctx.notes.append("no ready cycle carried a snapshot together with committed entries in this run (the snapapp choreography did not come about)")
     ctx.cov["scenario_wall_s_max"] = round(max(r[3] for r in results), 1)
     ctx.sample({"scenario": scs[0], "events": [json.loads(x) for x in results[0][2][:12]]})
     if not ctx.replay:
